@@ -221,7 +221,12 @@ func (c *Ctx) globalInitial(cell *Cell) *Val {
 }
 
 func (w *World) havocMutableGlobals(c *Ctx, st *State) {
+	gs := make([]*ssa.Global, 0, len(w.mutableGlobal))
 	for g := range w.mutableGlobal {
+		gs = append(gs, g)
+	}
+	sort.Slice(gs, func(i, j int) bool { return gs[i].String() < gs[j].String() })
+	for _, g := range gs {
 		cell := w.globalCell(g)
 		if strings.HasPrefix(g.Pkg.Pkg.Path(), modulePath) {
 			st.cells[cell] = c.havocVal(st, cell.Typ, "G."+g.Name())
